@@ -700,6 +700,13 @@ func gen(c *harness.C) []harness.Case {
 		depth = 7
 	}
 	if c.Replay != nil {
+		var pt struct {
+			Peer   bool `json:"peer_traffic"`
+			Expire int  `json:"expire_s"`
+		}
+		if json.Unmarshal(c.Replay, &pt) == nil && pt.Peer {
+			return []harness.Case{peerKeepsAliveCase(time.Duration(pt.Expire) * time.Second)}
+		}
 		return []harness.Case{bfsCase(2*time.Second, op{K: "tick"}, 1, false)}[:1]
 	}
 	var cases []harness.Case
